@@ -159,11 +159,15 @@ package topic
 //@   requires [locked] held[t.mutex] == 2 && std(t)
 //@   requires [node] isnode[node] && wf()
 //@   ensures [wf] wf() && forall m *node {isnode[m]} :: old(isnode[m]) ==> isnode[m]
+//@   ensures [empty-means-empty] empty ==> len(node.values) == 0 && len(node.children) == 0
+//@   at call 1 delete assert [pruned-empty] len(child.values) == 0 && len(child.children) == 0
 //@   modifies any(node.values), anymap(map[string]*node), elemsof(iface)
 //@ func (t *Tree) clear(value interface{}, node *node) (empty bool)
 //@   requires [locked] held[t.mutex] == 2
 //@   requires [node] isnode[node] && wf()
 //@   ensures [wf] wf()
+//@   ensures [empty-exact] empty <==> (len(node.values) == 0 && len(node.children) == 0)
+//@   at call 1 delete assert [pruned-empty] len(child.values) == 0 && len(child.children) == 0
 //@   modifies any(node.values), anymap(map[string]*node), elemsof(iface)
 //@   loop 1 invariant [wf] wf() && isnode[node]
 //@ func (t *Tree) count(node *node) (n int)
